@@ -84,6 +84,7 @@ Definition expected_skeleton : list (string * string * list string) := [
   ("_session_start", "handler_add_timed", ["_handle_missing_session"; "SESSION_TIMEOUT"]);
   ("_sm_enable", "disconnect_mem_error", []);
   ("_sm_enable", "handler_add", ["_handle_sm"; "XMPP_NS_SM"; "NULL"; "NULL"]);
+  ("_stream_negotiation_success", "assign", ["conn->stream_negotiation_completed"; "1"]);
   ("auth_handle_component_open", "handler_add", ["_handle_component_hs_response"; "NULL"; "'handshake'"; "NULL"]);
   ("auth_handle_component_open", "handler_add", ["_handle_error"; "XMPP_NS_STREAMS"; "'error'"; "NULL"]);
   ("auth_handle_component_open", "handler_add_timed", ["_handle_missing_handshake"; "HANDSHAKE_TIMEOUT"]);
@@ -93,14 +94,36 @@ Definition expected_skeleton : list (string * string * list string) := [
   ("auth_handle_open", "handler_add_timed", ["_handle_missing_features"; "FEATURES_TIMEOUT"]);
   ("auth_handle_open_raw", "_stream_negotiation_success", []);
   ("_conn_connect", "conn_prepare_reset", ["open_handler"]);
+  ("_conn_reset", "assign", ["conn->bind_required"; "0"]);
+  ("_conn_reset", "assign", ["conn->compression.supported"; "0"]);
+  ("_conn_reset", "assign", ["conn->error"; "0"]);
+  ("_conn_reset", "assign", ["conn->intf"; "sock_intf"]);
+  ("_conn_reset", "assign", ["conn->intf.conn"; "conn"]);
+  ("_conn_reset", "assign", ["conn->sasl_support"; "0"]);
+  ("_conn_reset", "assign", ["conn->secured"; "0"]);
+  ("_conn_reset", "assign", ["conn->send_queue_head"; "NULL"]);
+  ("_conn_reset", "assign", ["conn->send_queue_len"; "0"]);
+  ("_conn_reset", "assign", ["conn->send_queue_tail"; "NULL"]);
+  ("_conn_reset", "assign", ["conn->send_queue_user_len"; "0"]);
+  ("_conn_reset", "assign", ["conn->session_required"; "0"]);
+  ("_conn_reset", "assign", ["conn->stream_negotiation_completed"; "0"]);
+  ("_conn_reset", "assign", ["conn->tls_failed"; "0"]);
+  ("_conn_reset", "assign", ["conn->tls_support"; "0"]);
   ("_disconnect_cleanup", "conn_disconnect", []);
   ("_handle_stream_start", "conn_disconnect", []);
+  ("_reset_sm_state_for_reconnect", "assign", ["conn->bound_jid"; "NULL"]);
+  ("conn_disconnect", "assign", ["conn->state"; "XMPP_STATE_DISCONNECTED"]);
+  ("conn_disconnect", "assign", ["conn->stream_negotiation_completed"; "0"]);
+  ("conn_disconnect", "assign", ["conn->tls"; "NULL"]);
   ("conn_disconnect_clean", "conn_disconnect", []);
   ("conn_disconnect_clean", "xmpp_timed_handler_delete", ["_disconnect_cleanup"]);
   ("conn_established", "conn_disconnect", []);
   ("conn_established", "conn_open_stream", []);
   ("conn_established", "conn_tls_start", []);
   ("conn_open_stream", "conn_disconnect", []);
+  ("conn_parser_reset", "assign", ["conn->reset_parser"; "0"]);
+  ("conn_prepare_reset", "assign", ["conn->open_handler"; "handler"]);
+  ("conn_prepare_reset", "assign", ["conn->reset_parser"; "1"]);
   ("xmpp_conn_open_stream", "conn_prepare_reset", ["auth_handle_open_raw"]);
   ("xmpp_conn_open_stream_default", "conn_open_stream", []);
   ("xmpp_conn_open_stream_default", "conn_prepare_reset", ["auth_handle_open_raw"]);
